@@ -21,6 +21,12 @@ fn init() {
     INIT.call_once(install_panic_hook);
 }
 
+/// VERIF_FUZZ_ONLY=<ID> pins a two-property target to one property
+fn only() -> Option<&'static str> {
+    static ONLY: std::sync::OnceLock<Option<String>> = std::sync::OnceLock::new();
+    ONLY.get_or_init(|| std::env::var("VERIF_FUZZ_ONLY").ok()).as_deref()
+}
+
 fn finish<C: Serialize>(property: &str, sub: &str, case: &C, verdict: Result<crate::engine::Pass, Stop>) {
     if let Ok(path) = std::env::var("VERIF_FUZZ_DECODE") {
         let doc = serde_json::json!({"property": property, "subcheck": sub, "case": case, "origin": "libFuzzer artifact"});
@@ -175,7 +181,11 @@ fn c02_case(u: &mut Unstructured) -> AResult<c02::Case> {
 /// one libFuzzer input for the alignment target: first choice selects C01 or C02
 pub fn align_one(u: &mut Unstructured) {
     init();
-    let which = u.ratio(1, 2).unwrap_or(false);
+    let which = match only() {
+        Some("C01") => true,
+        Some("C02") => false,
+        _ => u.ratio(1, 2).unwrap_or(false),
+    };
     if which {
         if let Ok(c) = c01_case(u) {
             let v = guarded(c01::check, &c);
@@ -262,7 +272,12 @@ fn myers_case(u: &mut Unstructured, k255: bool) -> AResult<c09::MyersCase> {
 /// one libFuzzer input for the Myers target: C09 (find_all_end/distance) or C10 (traceback APIs)
 pub fn myers_one(u: &mut Unstructured) {
     init();
-    if u.ratio(1, 2).unwrap_or(false) {
+    let which = match only() {
+        Some("C09") => true,
+        Some("C10") => false,
+        _ => u.ratio(1, 2).unwrap_or(false),
+    };
+    if which {
         if let Ok(c) = myers_case(u, false) {
             let v = guarded(c09::check_myers, &c);
             finish("C09", "C09/myers", &c, v);
